@@ -29,6 +29,7 @@ func (r Result) String() string { return [...]string{"unsat", "sat", "unknown"}[
 type SolverStats struct {
 	Sat, Unsat, Unknown, Errors int64
 	Nanos                       int64
+	Fallbacks                   int64
 }
 
 // Solver is one long-lived z3 process driven over a pipe.
@@ -46,7 +47,7 @@ type Solver struct {
 }
 
 func NewSolver(stats *SolverStats) *Solver {
-	return &Solver{Bin: "z3", Args: []string{"-in", "-smt2"}, Timeout: 60 * time.Second, Stats: stats}
+	return &Solver{Bin: "z3", Args: []string{"-in", "-smt2"}, Timeout: 8 * time.Second, Stats: stats}
 }
 
 func (s *Solver) start() error {
@@ -170,6 +171,28 @@ func (s *Solver) Check(tb *Table, asserts []*Term, vals []*Term) (Result, []uint
 		return Unknown, nil
 	}
 	hasErr := false
+	if os.Getenv("GOSYM_NO_FALLBACK") == "" {
+		isUnknown := true
+		for _, l := range lines {
+			if l == "sat" || l == "unsat" {
+				isUnknown = false
+			}
+		}
+		if isUnknown {
+			// portfolio: the primary solver timed out (bit-blasting stalls on 64-bit linear arithmetic);
+			// retry one-shot with int-blasting back ends.
+			if r, out, ok := s.fallback(body, vals); ok {
+				switch r {
+				case Sat:
+					atomic.AddInt64(&s.Stats.Sat, 1)
+				case Unsat:
+					atomic.AddInt64(&s.Stats.Unsat, 1)
+				}
+				atomic.AddInt64(&s.Stats.Fallbacks, 1)
+				return r, out
+			}
+		}
+	}
 	for _, l := range lines {
 		switch {
 		case l == "sat":
@@ -342,4 +365,69 @@ func parseValues(txt string, vals []*Term) ([]uint64, error) {
 		out[i] = v
 	}
 	return out, nil
+}
+
+
+// fallback decides a query with one-shot runs of the other installed solvers (z3 5.x with
+// int-blasting, cvc5 with --solve-bv-as-int), 60 s each. ok=false if none answered.
+func (s *Solver) fallback(body string, vals []*Term) (Result, []uint64, bool) {
+	var gv strings.Builder
+	if len(vals) > 0 {
+		gv.WriteString("(get-value (")
+		for _, v := range vals {
+			gv.WriteString(ref(v))
+			gv.WriteByte(' ')
+		}
+		gv.WriteString("))\n")
+	}
+	type alt struct {
+		bin  string
+		args []string
+		pre  string
+	}
+	alts := []alt{
+		{"z3-new", []string{"-in", "-smt2", "-T:60", "tactic.default_tactic=smt", "smt.bv.solver=2"}, ""},
+		{"cvc5", []string{"--lang", "smt2", "--produce-models", "--solve-bv-as-int=sum", "--tlimit=60000"}, "(set-logic ALL)\n"},
+		{"z3-new", []string{"-in", "-smt2", "-T:60"}, ""},
+	}
+	for _, a := range alts {
+		script := a.pre + body + "(check-sat)\n"
+		cmd := exec.Command(a.bin, a.args...)
+		cmd.Stdin = strings.NewReader(script + gv.String())
+		outb, _ := cmd.Output()
+		txt := string(outb)
+		lines := strings.Split(txt, "\n")
+		res := Unknown
+		idx := -1
+		for i, l := range lines {
+			l = strings.TrimSpace(l)
+			if l == "sat" {
+				res, idx = Sat, i
+				break
+			}
+			if l == "unsat" {
+				res, idx = Unsat, i
+				break
+			}
+		}
+		if res == Unknown {
+			continue
+		}
+		if strings.Contains(strings.Join(lines[:idx+1], "\n"), "(error") {
+			continue
+		}
+		if res == Unsat || len(vals) == 0 {
+			return res, nil, true
+		}
+		rest := strings.Join(lines[idx+1:], " ")
+		if strings.Contains(rest, "(error") {
+			continue
+		}
+		out, err := parseValues(rest, vals)
+		if err != nil {
+			continue
+		}
+		return Sat, out, true
+	}
+	return Unknown, nil, false
 }
